@@ -28,11 +28,15 @@ def rules(chk, db):
     encrules.write_rules(chk, db, want=('LEN', 'ELT', 'GRD'))
     chk.rule('NR.w', 'no run-time narrowing integral conversion in any WritePayload/Size (lengths stay in SizeType)', minimum=10)
     encrules.narrowing(chk, db, 'NR.w', {'WritePayload', 'Size', 'Write'})
+    chk.rule('PK', 'Prefix() of every container kind is the documented container prefix (BIN for integral sequences)', minimum=30)
+    encrules.prefix_kind(chk, db, 'PK', ('Prefix',))
     # table layout: hash, count of non-empty entries, per entry id + byte size + value + padding to the declared size
     tablerules.rules(chk, db, {'TW', 'TE'})
     c16.rules(chk, db, prefix='BW.', only={'nop::BoundedWriter'})
     chk.rule('CO', 'wrapper encoders are composed of exactly the documented component encodings', minimum=30)
-    encrules.composition(chk, db, 'CO', ('WritePayload', 'Prefix'))
+    encrules.composition(chk, db, 'CO', ('WritePayload', 'Prefix', 'Size'))
+    # Size() is on the wire too: it is the declared byte size of every table entry
+    encrules.size_rules(chk, db)
 
 
 def run(chk, db):
